@@ -4,6 +4,7 @@ import itertools
 from mc.core import Res
 from mc import keys as K
 from mc import recips as R
+from mc import adapt as A
 from refpgp import enc as renc, msg as rmsg, wire, keys as rkeys, armor as rarmor
 
 T_LIT = 1400000000
@@ -104,11 +105,13 @@ class Prop(object):
             probs.append('content differs')
         if a.filename != b.filename:
             probs.append('file name %r != %r' % (b.filename, a.filename))
-        if a.is_compressed != b.is_compressed or a._compression != b._compression:
+        # format, time and compression algorithm have no documented accessor: they are read from the exports by the reference parser
+        va, vb = A.msg_view(a), A.msg_view(b)
+        if a.is_compressed != b.is_compressed or va['compression'] != vb['compression']:
             probs.append('compression setting differs')
-        if a._message.format != b._message.format:
+        if va['format'] != vb['format']:
             probs.append('format differs')
-        if int(a._message.mtime.timestamp()) != int(b._message.mtime.timestamp()):
+        if va['time'] != vb['time']:
             probs.append('time differs')
         if sorted(bytes(s) for s in a.signatures) != sorted(bytes(s) for s in b.signatures):
             probs.append('signatures differ')
